@@ -641,6 +641,78 @@ MG_QUERIES = (50, 55, 56, 57, 58, 59)
 _MGMT_ORACLE = []
 
 
+def stratum_stateful_conditions(chk):
+    """'an assignment that carries a condition function is followed only WHILE that function returns true for the
+    assignment's parameters': the function is asked at query time - its answer may change between two queries with the same
+    stored parameters (a switch, a clock), and a function that raises has not returned true.  Real ConditionalRoleManager /
+    ConditionalDomainManager and an Enforcer on a conditional model."""
+    from casbin.rbac import default_role_manager as d
+    import casbin
+    n = 0
+    flag = {"on": True, "boom": False}
+
+    def cond(*ps):
+        if flag["boom"]:
+            raise ValueError("cannot evaluate the condition for %r" % (ps,))
+        return flag["on"]
+
+    def ask(f):
+        try:
+            return bool(f())
+        except Exception:  # noqa  (the error surfaces: nothing was granted)
+            return "raised"
+
+    def build(kind):
+        if kind == "crm":
+            m = d.ConditionalRoleManager(10)
+            m.add_link("a", "b")
+            m.add_link("b", "c")
+            m.add_link_condition_func("a", "b", cond)
+            m.set_link_condition_func_params("a", "b", "p1", "p2")
+            return [("has_link(a,b)", lambda: m.has_link("a", "b")), ("has_link(a,c)", lambda: m.has_link("a", "c")),
+                    ("has_link(b,c)", lambda: m.has_link("b", "c"))], [None, None, True]
+        if kind == "cdm":
+            m = d.ConditionalDomainManager(10)
+            m.add_link("a", "b", "d1")
+            m.add_link("b", "c", "d1")
+            m.add_domain_link_condition_func("a", "b", "d1", cond)
+            m.set_domain_link_condition_func_params("a", "b", "d1", "p1", "p2")
+            return [("has_link(a,b,d1)", lambda: m.has_link("a", "b", "d1")), ("has_link(a,c,d1)", lambda: m.has_link("a", "c", "d1")),
+                    ("has_link(b,c,d1)", lambda: m.has_link("b", "c", "d1"))], [None, None, True]
+        e = casbin.Enforcer(casbin.Enforcer.new_model(text=MODEL_TEXT["ecrm"]))
+        e.add_policy("b", "data1", "read")
+        e.add_named_grouping_policy("g", "a", "b", "p1", "p2")
+        e.add_named_link_condition_func("g", "a", "b", cond)
+        return [("enforce(a,data1,read)", lambda: e.enforce("a", "data1", "read")), ("enforce(b,data1,read)", lambda: e.enforce("b", "data1", "read"))], [None, True]
+
+    for kind in ("crm", "cdm", "ecrm"):
+        qs, fixed = build(kind)
+        for on, boom in [(True, False), (False, False), (True, False), (True, True), (False, False), (True, False), (False, True), (True, False)]:
+            flag["on"], flag["boom"] = on, boom
+            for (label, q), fx in zip(qs, fixed):
+                got = ask(q)
+                n += 1
+                chk.count(("stateful-condition", kind, label, on, boom))
+                if fx is not None:
+                    ok = got == fx
+                    want = fx
+                elif boom:
+                    ok = got in (False, "raised")
+                    want = "not granted (False, or the error surfaces)"
+                else:
+                    ok = got == on
+                    want = on
+                if not ok:
+                    chk.spec_fail(dict(stratum="stateful-conditions", manager=kind, query=label,
+                                       condition_now=("raises" if boom else ("returns %s" % on)),
+                                       history="answers of the condition before this query: true, false, true, raise, false, true, raise, true (same stored parameters)"),
+                                  got, want, "a conditional assignment is followed although its condition does not return true NOW "
+                                             "(or is not followed although it does)")
+                    chk.extra.setdefault("strata", {})["stateful_conditions"] = n
+                    return
+    chk.extra.setdefault("strata", {})["stateful_conditions"] = n
+
+
 def mgmt_oracle():
     if not _MGMT_ORACLE:
         path, log = _core.build_oracle("Mgmt")
@@ -877,6 +949,15 @@ def run(chk, tier):
 def replay(chk):
     rec = json.load(open(chk.replay_file))
     c = rec.get("case") or {}
+    if c.get("stratum") == "stateful-conditions":
+        chk.spec_failures = []
+        stratum_stateful_conditions(chk)
+        if chk.spec_failures:
+            print("replay:", json.dumps(chk.spec_failures[0])[:700])
+            print(f"VIOLATION property={chk.prop} replay={chk.replay_file}")
+            sys.exit(1)
+        print("replay passes: the stratum reports nothing on this tree")
+        sys.exit(0)
     if "ops" not in c:
         print("replay file names a broken theorem/correspondence, not an input:", json.dumps(rec.get("broken"))[:800])
         sys.exit(1)
@@ -944,6 +1025,7 @@ def main():
     if chk.replay_file:
         return replay(chk)
     run(chk, chk.tier)
+    stratum_stateful_conditions(chk)
     if chk.tier == "quick" and (chk.broken() or chk.anchor_changed) and not chk.spec_failures:
         chk.notes.append("escalated to thorough budget after a broken proof/correspondence")
         run(chk, "thorough")
